@@ -160,6 +160,10 @@ int sturm_seqence_count_roots(
     const upolynomial_dense_t* sturm_sequence, int sturm_sequence_size,
     const lp_rational_interval_t* interval)
 {
+  // A point interval [a, a] has no b (it is not constructed): one root iff a is a root
+  if (interval && interval->is_point) {
+    return upolynomial_dense_sgn_at_rational(&sturm_sequence[0], &interval->a) == 0;
+  }
   // Sign changes at a (or -inf)
   int a_sgn_changes =
       interval ? sturm_seqence_count_sign_changes(sturm_sequence, sturm_sequence_size, &interval->a, sturm_sequence_size)
